@@ -530,6 +530,18 @@ Fair == /\ WF_vars(OSNext)
 
 FairSpec == Spec /\ Fair
 
+\* C10 speaks about a FIXED desired state: no user creates, deletes, pauses or archives a set; third-party edits,
+\* workload changes and restarts (all bounded by the budgets) are the disturbances
+DisturbNext ==
+    \/ \E o \in Objs : \E c \in {"Ready", "NotReady"} : Workload(o, c)
+    \/ \E o \in Objs : \E f \in BOOLEAN : TPReown(o, f)
+    \/ \E o \in Objs : TPDelete(o)
+    \/ \E o \in Objs : TPEdit(o)
+    \/ \E o \in Objs : TPDropLabel(o)
+    \/ \E o \in Objs : \E f \in BOOLEAN : TPCreate(o, f)
+    \/ Crash
+FixedSpec == Init /\ [][OSNext \/ DisturbNext]_vars /\ Fair
+
 VerBound == /\ \A o \in Objs : obj[o].ver <= MaxVer
             /\ \A s \in Sets : cr[s].ver <= MaxVer
 
@@ -617,10 +629,39 @@ TypeOK ==
 \* a set that is left active and undisturbed eventually controls all its objects or is superseded / blocked
 Quiet == budget.env = 0 /\ budget.work = 0 /\ budget.crash = 0
 
-Converged(s) ==
-    cr[s].exists /\ cr[s].life = "Active" /\ ~cr[s].deleting
-      => \A o \in AllObjs(s) : obj[o].exists
+\* phase j of set s is complete: every object controlled by s and passing its probes
+PhaseDone(s, j) == \A o \in Range(Phases[s][j]) : MIsCtrl(s, cr[s].inc, obj[o]) /\ MPasses(o, obj[o])
+ReachablePhase(s, j) == \A i \in 1..(j - 1) : PhaseDone(s, i)
+OtherController(s, o) == obj[o].exists /\ \E i \in DOMAIN obj[o].owners : obj[o].owners[i].ctrl /\ obj[o].owners[i].id # s
+\* object o of set s is as s wants it, or somebody else controls it (a newer revision took it over, or a collision s must not resolve)
+PrevNow(s) == { [ id |-> PrevSeq[s][k], uid |-> cr[PrevSeq[s][k]].inc, remote |-> <<>> ] : k \in { i \in DOMAIN PrevSeq[s] : cr[PrevSeq[s][i]].exists } }
+\* C01 forbids s to touch o (e.g. a third party stripped or replaced the owner references of an object s may not adopt):
+\* such a collision is reported, not repaired
+Forbidden(s, o) == obj[o].exists /\ ~MIsOwner(s, cr[s].inc, obj[o])
+                   /\ ~AdoptionPermitted("native", s, cr[s].inc, cr[s].revision, AsCore(obj[o]), PrevNow(s), CP[o], FALSE)
+Repaired(s, o) == \/ MIsCtrl(s, cr[s].inc, obj[o]) /\ obj[o].content = s /\ obj[o].cache
+                  \/ OtherController(s, o)
+                  \/ Forbidden(s, o)
+\* (observation O7: a set whose previous revision is deleted before it has computed its own revision number can never
+\*  compute it - the revision reconciler does not tolerate NotFound - and reconciles nothing; that is a change of the
+\*  desired state by the user, not a disturbance, and is excluded here)
+RevisionKnowable(s) == cr[s].revision # 0 \/ \A k \in DOMAIN PrevSeq[s] : cr[PrevSeq[s][k]].exists
+ActiveSet(s) == cr[s].exists /\ cr[s].life = "Active" /\ ~cr[s].deleting /\ cr[s].archived = "none" /\ RevisionKnowable(s)
+\* every object of every phase the gate lets s reach is repaired
+Converged(s) == ActiveSet(s) => \A j \in DOMAIN Phases[s] : ReachablePhase(s, j) => \A o \in Range(Phases[s][j]) : Repaired(s, o)
 
+\* C10: whatever was disturbed (third-party edits / deletes / re-owning, workload changes, restarts - all bounded by the
+\* budgets), under a fair schedule every active set ends up repaired and stays so
 Live_C10_ObjectsRepaired == \A s \in Sets : <>[](Quiet => Converged(s))
+
+\* C10: ... and the system falls silent: eventually no controller step changes an object or an ObjectSet any more
+\* (no two revisions keep overwriting each other)
+Live_C10_Quiescent == <>[][OSNext => (obj' = obj /\ cr' = cr)]_vars
+
+\* C04 / C10: a set that is being deleted (not orphaned) eventually is gone, an archived one eventually reports Archived=True
+Live_C10_TeardownCompletes ==
+    \* (an orphan-deleted set waits for the cluster's garbage collector, which is not modelled)
+    \A s \in Sets : <>[](Quiet => /\ ~(cr[s].exists /\ cr[s].deleting /\ ~cr[s].orphan)
+                                  /\ (cr[s].exists /\ cr[s].life = "Archived" => cr[s].archived = "True"))
 
 =============================================================================
